@@ -98,11 +98,17 @@ def enc_op(op):
 
 def cond_of(k, wide=False):
     rep = 2 if wide else 1
+    # the predicate is a user's: it is defined on ITEMS only (like
+    # `lambda s: s in 'xyz'` in the library's own tests) and fails on None,
+    # so a scan that consults it past the end does not go unnoticed
+    def on_item(x):
+        if not isinstance(x, str):
+            raise TypeError('predicate called with %r' % (x,))
     if k >= 0:
         c = chr(k) * rep
-        return lambda x: x == c
+        return lambda x: on_item(x) or x == c
     c = chr(-k) * rep
-    return lambda x: x != c
+    return lambda x: on_item(x) or x != c
 
 
 def mkbuf(seq, token_backed):
